@@ -27,7 +27,7 @@ FRAME_IFACES = ['iter_array', 'iter_array_items', 'iter_series', 'iter_series_it
                 'iter_window_array', 'iter_window_array_items', 'iter_group_labels', 'iter_group_labels_items']
 BATCH_STEPS = ['apply', 'apply_items', 'apply_series', 'apply_element', 'iloc', 'loc_cols', 'mul', 'sum', 'getitem', 'head',
                'apply_except', 'apply_items_except', 'rename', 'sort_index', 'transpose', 'cumsum', 'drop', 'min', 'neg', 'loc_rows', 'tail',
-               'sum_noskip', 'mean', 'max']
+               'sum_noskip', 'mean', 'max', 'apply_none', 'apply_none_except', 'apply_grow']
 
 
 def gen_cells(ch, nr, j, kind):
@@ -238,8 +238,13 @@ class PoolWorld(WorldBase):
                         c[ch.randint(0, len(c) - 1)] = {'nan': 1}
         depth = ch.randint(1, 3)
         chain = [ch.choice(BATCH_STEPS) for _ in range(depth)]
+        for i, st_ in enumerate(chain):
+            if st_ in ('sum', 'min', 'mean', 'max', 'sum_noskip', 'apply_element', 'apply_series', 'apply_none', 'apply_none_except'):
+                chain = chain[:i + 1]  # nothing is chained after a dimension-reducing step
+                break
         op = {'op': 'batch_pool', 'frames': frames, 'chain': chain, 'export': ch.choice(['items', 'to_frame', 'to_bus', 'items_partial', 'to_frame_axis1']),
-              'source': ch.choice(['from_frames', 'items_gen', 'bus_items'])}
+              'source': ch.choice(['from_frames', 'items_gen', 'bus_items', 'items_eq_labels']), 'dirty_go': ch.chance(0.25),
+              'none_at': ch.randint(0, n - 1), 'eq_off': ch.randint(0, 7)}
         op.update(self._pool_params(ch, n))
         if op.get('fail_at') is not None:
             op['fail_at'] = ch.randint(0, n - 1)
@@ -528,7 +533,7 @@ class PoolWorld(WorldBase):
         return 'equal'
 
     # ------------------------------------------------------------------ Batch
-    def _batch_chain(self, b, chain, fail_label, has_workers):
+    def _batch_chain(self, b, chain, fail_label, has_workers, none_label=None):
         sf = self.sf
         for step in chain:
             if step == 'apply':
@@ -577,6 +582,12 @@ class PoolWorld(WorldBase):
                 b = b.iloc[[0]]
             elif step == 'tail':
                 b = b.tail(1)
+            elif step == 'apply_none':
+                b = b.apply(functools.partial(pf.frame_none_for, none_on=none_label, fail_on=fail_label))
+            elif step == 'apply_none_except':
+                b = b.apply_except(functools.partial(pf.frame_none_for, none_on=none_label, fail_on=fail_label), pf.TaskFailure)
+            elif step == 'apply_grow':
+                b = b.apply(functools.partial(pf.frame_grow_in_task, fail_on=fail_label))
             elif step == 'sum_noskip':
                 b = b.sum(skipna=False)
             elif step == 'mean':
@@ -593,9 +604,28 @@ class PoolWorld(WorldBase):
                 b = b.count()
         return b
 
+    EQ_LABELS = [1, True, 2, 2.0, 'q', 'q', 0, False]
+
+    def _batch_labels(self, op):
+        names = [s['name'] for s in op['frames']]
+        if op.get('source') == 'items_eq_labels':
+            off = op.get('eq_off', 0)
+            return [self.EQ_LABELS[(off + i) % len(self.EQ_LABELS)] for i in range(len(names))]
+        return names
+
+    def _batch_frame(self, spec, op):
+        sf = self.sf
+        f = build_frame(sf, spec)
+        if op.get('dirty_go'):
+            # a grow-only frame that has just been grown and not read since: its columns cache is cold
+            g = f.to_frame_go()
+            g['late'] = list(range(len(g.index)))
+            return g if op.get('source') != 'bus_items' else g.to_frame()  # a Bus holds static Frames
+        return f
+
     def _batch_run(self, op, workers):
         sf = self.sf
-        frames = [build_frame(sf, s) for s in op['frames']]
+        frames = [self._batch_frame(s, op) for s in op['frames']]
         kw = {}
         if workers:
             kw = {'max_workers': op['k'], 'chunksize': op['chunk'], 'use_threads': op['threads']}
@@ -604,12 +634,15 @@ class PoolWorld(WorldBase):
             b = sf.Batch.from_frames(frames, **kw)
         elif src == 'items_gen':
             b = sf.Batch(((f.name, f) for f in frames), **kw)
+        elif src == 'items_eq_labels':
+            b = sf.Batch(zip(self._batch_labels(op), frames), **kw)
         else:
             b = sf.Batch(sf.Bus.from_frames(frames).items(), **kw)
         fail_label = None
         if op.get('fail_at') is not None:
             fail_label = op['frames'][op['fail_at'] % len(op['frames'])]['name']
-        b = self._batch_chain(b, op['chain'], fail_label, workers)
+        none_label = op['frames'][op.get('none_at', 0) % len(op['frames'])]['name']
+        b = self._batch_chain(b, op['chain'], fail_label, workers, none_label)
         ex = op['export']
         if ex == 'items':
             return [(k, v) for k, v in b.items()]
@@ -638,9 +671,9 @@ class PoolWorld(WorldBase):
         if op.get('fail_at') is not None:
             fail_label = op['frames'][op['fail_at'] % len(op['frames'])]['name']
         out = []
-        for spec in op['frames']:
-            c = build_frame(sf, spec)
-            label = spec['name']
+        none_label = op['frames'][op.get('none_at', 0) % len(op['frames'])]['name']
+        for spec, label in zip(op['frames'], self._batch_labels(op)):
+            c = self._batch_frame(spec, op)
             dropped = False
             for step in op['chain']:
                 try:
@@ -686,6 +719,12 @@ class PoolWorld(WorldBase):
                         c = c.iloc[[0]]
                     elif step == 'tail':
                         c = c.tail(1)
+                    elif step == 'apply_none':
+                        c = pf.frame_none_for(c, none_on=none_label, fail_on=fail_label)
+                    elif step == 'apply_none_except':
+                        c = pf.frame_none_for(c, none_on=none_label, fail_on=fail_label)
+                    elif step == 'apply_grow':
+                        c = pf.frame_grow_in_task(c, fail_on=fail_label)
                     elif step == 'sum_noskip':
                         c = c.sum(skipna=False)
                     elif step == 'mean':
@@ -701,7 +740,7 @@ class PoolWorld(WorldBase):
                     elif step == 'count':
                         c = c.count()
                 except pf.TaskFailure:
-                    if step in ('apply_except', 'apply_items_except'):
+                    if step in ('apply_except', 'apply_items_except', 'apply_none_except'):
                         dropped = True
                         break
                     raise
@@ -714,7 +753,7 @@ class PoolWorld(WorldBase):
     def do_batch_direct(self, op, dec_):
         '''C19.batch: dict(batch.op.items()) == {label: op(frame)} and the exporter concatenates exactly those.'''
         sf = self.sf
-        if 'apply_except' in op['chain'] or 'apply_items_except' in op['chain']:
+        if 'apply_except' in op['chain'] or 'apply_items_except' in op['chain'] or 'apply_none_except' in op['chain']:
             op = dict(op)
             op['chunk'] = 1
         workers = bool(op.get('use_pool'))
@@ -748,6 +787,8 @@ class PoolWorld(WorldBase):
         self.stats['batch:direct-equal'] += 1
         # exporters: exactly those results, concatenated
         ex = op2['export']
+        if op2.get('source') == 'items_eq_labels':
+            return 'equal'  # exporters need unique labels; labels equal by Python equality are only followed through items()
         if ex in ('to_bus',) and exp[0] == 'ok':
             c = [(norm(k), snap(v)) for k, v in exp[1].items()]
             if c != a:
@@ -798,7 +839,7 @@ class PoolWorld(WorldBase):
         return 'equal'
 
     def do_batch_pool(self, op, dec_):
-        if 'apply_except' in op['chain'] or 'apply_items_except' in op['chain']:
+        if 'apply_except' in op['chain'] or 'apply_items_except' in op['chain'] or 'apply_none_except' in op['chain']:
             op = dict(op)
             op['chunk'] = 1  # documented: apply_except idioms need chunksize 1
         site = 'Batch(' + ('>'.join(op['chain'])) + ').' + op['export']
